@@ -463,6 +463,18 @@ def se_observe(system):
     return si_state(system), [int(v) for v in system.chemostats]
 
 
+def _overwrite(given):
+    """the caller re-uses, in place, an array it handed over earlier"""
+    if isinstance(given, np.ndarray):
+        given[:] = (1 - given) if given.dtype.kind in "iub" else -7.0
+    elif isinstance(given, UnitArray):
+        given.value[:] = -7.0
+    elif given and isinstance(given[0], bool):
+        given[:] = [not x for x in given]
+    else:
+        given[:] = [1 - x if x in (0, 1) else -7.0 for x in given]
+
+
 def se_replay(rep, prog, cfg, rng, tag):
     from strengths import rdsystem_from_dict, rdsystem_to_dict
     kind, cell_env, vol = SE_SPACES[cfg]
@@ -489,6 +501,7 @@ def se_replay(rep, prog, cfg, rng, tag):
     if differs(system, prog, "initial"):
         return
     kept = []
+    handed = []          # arrays the caller handed to the system and still holds
     for k, st in enumerate(prog["steps"]):
         op, a = st["op"], st["args"]
         where = op
@@ -534,20 +547,19 @@ def se_replay(rep, prog, cfg, rng, tag):
                 # (the system keeps its own array: what the caller does to the object it handed over afterwards changes nothing)
                 given = rng.choice([arr, np.array(arr)]) if a["u"] == "bare" else UnitArray(arr, a["u"])
                 system.state = given
-                if isinstance(given, np.ndarray):
-                    given[:] = -7.0
-                elif isinstance(given, UnitArray):
-                    given.value[:] = -7.0
-                else:
-                    given[:] = [-7.0] * len(given)
+                handed.append(given)
+                if rng.random() < 0.5:          # right away, or whenever the specification's CallerEdits step comes
+                    _overwrite(handed.pop())
             elif op == "assign_chem":
                 arr = [(i + a["k"]) % 2 for i in range(1, len(SE_LABELS) * N + 1)]
                 given = rng.choice([arr, np.array(arr), np.array(arr, dtype=int), [bool(x) for x in arr]])
                 system.chemostats = given
-                if isinstance(given, np.ndarray):
-                    given[:] = 1 - given
-                else:
-                    given[:] = [1 - int(x) for x in given]
+                handed.append(given)
+                if rng.random() < 0.5:
+                    _overwrite(handed.pop())
+            elif op == "caller_edits":
+                while handed:
+                    _overwrite(handed.pop())
             elif op == "copy":
                 kept.append((system, k, (prog["steps"][k - 1] if k else prog)))
                 system = system.copy()
@@ -611,7 +623,7 @@ def history_checks(rep, tier, seed, rng):
     rep.extra["edit_histories_replayed"] = total
     rep.extra["edit_history_calls_by_kind"] = ops
     missing = {"set_state", "set_chem", "reset_state", "reset_chem", "regen_state", "regen_chem", "edit_dens", "edit_chs", "assign_state",
-               "assign_chem", "copy", "roundtrip", "edit_env", "edit_vol"} - set(ops)
+               "assign_chem", "copy", "roundtrip", "edit_env", "edit_vol", "caller_edits"} - set(ops)
     if missing:
         raise MachineryError("generated histories never contain: %s" % sorted(missing))
 
